@@ -445,7 +445,9 @@ func main() {
 						case *ssa.Function:
 							work = append(work, v)
 						case *ssa.Global:
-							globals[v.String()] = J{"type": typeName(v.Type()), "pkg": v.Pkg.Pkg.Path()}
+							fn := prog.Fset.Position(v.Pos()).Filename
+							globals[v.String()] = J{"type": typeName(v.Type()), "pkg": v.Pkg.Pkg.Path(),
+								"harness": strings.Contains(fn, "zz_verif") || strings.Contains(fn, "/internal/verif")}
 						}
 					}
 				}
